@@ -139,7 +139,7 @@ Theorem parse_begin_counts f b d g :
   length (g_nodes g) = S (length (residues b)) /\ nth_error (g_nodes g) 0 = Some d /\
   length (g_edges g) = length (residues b).
 Proof.
-  intros Hs Hp. unfold parse_begin in Hp.
+  intros Hs Hp. unfold parse_begin, parse_begin_with in Hp.
   destruct b as [? | ? | ? | kids]; try (inversion Hs; fail).
   cbn [add_node] in Hp.
   destruct (walk f (PBranch kids) (length (g_nodes (mkGraph [] []))) (mkGraph (g_nodes (mkGraph [] []) ++ [d]) (g_edges (mkGraph [] [])))) as [[x g2]|] eqn:E;
